@@ -855,7 +855,7 @@ def c11_circumstance(clause, hist, cfgname, item):
     if clause == 'ReadBackPossible' and 'nonbootable_section_entry' in fs and \
             'El Torito section header specified' in item.get('open_error', ''):
         return 'nonbootable_section_entry'                       # the parser's own message for that defect
-    if (clause == 'BootInfoTable.stored' or (clause.startswith('BootInfoTable.read.') and clause.split('.')[-1] in ('jol', 'udf'))) \
+    if clause in ('BootInfoTable.stored', 'BootInfoTable.read.live.jol', 'BootInfoTable.read.open.jol', 'BootInfoTable.read.open.udf') \
             and 'boot_info_table_without_iso_name_edited_after_reopen' in fs:
         return 'boot_info_table_without_iso_name_edited_after_reopen'
     if clause in ('CatalogReachableAsFile.read.live.udf', 'CatalogReachableAsFile.read.open.udf', 'BootInfoTable.read.live.udf'):
@@ -920,7 +920,7 @@ def run(ctx):
     plan = []     # (profile, maxlen, maxrefuse, maxgen, simulate, depth, cfgs, cap)
     base_cfgs = ['plain', 'jol', 'rr', 'udf', 'all']
     if quick:
-        plan += [('c11q', 4, 1, 1, None, None, base_cfgs, 3400),
+        plan += [('c11q', 4, 1, 1, None, None, base_cfgs, 2200),
                  ('c11m', 2, 1, 0, None, None, ['plain', 'all'], 150),
                  ('c11s', 9, 2, 2, 40, 10, base_cfgs + ['jolrr'], 350),
                  ('c11n', 80, 2, 1, 1, 81, ['plain', 'all'], 70)]
@@ -949,7 +949,12 @@ def run(ctx):
             per = max(1, cap // max(1, len(groups)))
             hs = [hh for key in sorted(groups) for hh in rnd.sample(groups[key], min(per, len(groups[key])))]
         elif len(hs) > cap:
-            hs = rnd.sample(hs, cap)
+            # stratified: the behaviours with second-name actions first (all of them if they fit in half
+            # the budget), the rest of the budget for the others
+            link = [hh for hh in hs if any(st['act']['a'] in ('AddLink', 'RmLink', 'RmFileViaLink') for st in hh['h'])]
+            rest = [hh for hh in hs if not any(st['act']['a'] in ('AddLink', 'RmLink', 'RmFileViaLink') for st in hh['h'])]
+            n_link = min(len(link), max(cap // 2, cap - len(rest)))
+            hs = rnd.sample(link, n_link) + rnd.sample(rest, min(len(rest), cap - n_link))
         for hh in hs:
             hists.append(hh)
             for c in cfgs:
